@@ -396,9 +396,10 @@ def prepare (r : Ring) (n : Nat) (allocOk : Bool := true) : Res (Ring × Nat) :=
 /-- scan `iter` elements of size `esz` starting at physical index `addr` -/
 def findLoop (store needle : List Byte) (esz : Nat) : Nat → Nat → Res (Option Nat)
   | 0, _ => .ok none
-  | iter + 1, addr => do
-    let e ← Mem.rd store addr esz
-    if e = needle then pure (some addr) else findLoop store needle esz iter (addr + esz)
+  | iter + 1, addr =>
+    match Mem.rd store addr esz with
+    | .ok e => if e = needle then .ok (some addr) else findLoop store needle esz iter (addr + esz)
+    | _ => .oob
 
 /-- `mpt_queue_find(queue, esz, cmp, arg)` with `cmp` = "element equals needle";
     result: physical index of the match -/
@@ -407,13 +408,14 @@ def find (r : Ring) (needle : List Byte) : Res (Option Nat) :=
   if esz = 0 then .fault
   else if r.len < esz then .null
   else if !r.frag then findLoop r.store needle esz (r.len / esz) r.off
-  else do
+  else
     let up := r.max - r.off
-    match ← findLoop r.store needle esz (up / esz) r.off with
-    | some a => pure (some a)
-    | none =>
+    match findLoop r.store needle esz (up / esz) r.off with
+    | .ok (some a) => .ok (some a)
+    | .ok none =>
       if up % esz ≠ 0 then .null
       else findLoop r.store needle esz ((r.len - up) / esz) 0
+    | x => x
 
 /-- `mpt_queue_string(queue)`: ring afterwards and the bytes before the terminator -/
 def string (r : Ring) : Res (Ring × List Byte) :=
